@@ -349,8 +349,14 @@ class DR_Def(OrderedDict):
 
         self._check_for_drfunc(name, ns.drfile, ns.drfunc)
 
-        # ensure uf_reds has no None values:
-        ns.uf_reds = _merge_uf_reds((1, 1, 1, 1), ns.uf_reds)
+        # ensure uf_reds has no None values: a None entry is reset to
+        # the corresponding entry of `defaults` or, if that is None
+        # too, to 1
+        uf_default = self.defaults.get("uf_reds")
+        if uf_default is None:
+            uf_default = (None, None, None, None)
+        uf_default = _merge_uf_reds((1, 1, 1, 1), uf_default)
+        ns.uf_reds = _merge_uf_reds(uf_default, ns.uf_reds)
 
         # next, the default actions:
         if ns.desc is None:
